@@ -890,7 +890,40 @@ fn run_session(out: &mut Out, seed: u64, count: usize, stride: usize, limit: usi
     out.extra(&format!("session_{seed}"), json!({"images": firsts.len(), "sixel_bytes": encoded, "redraws_checked": redraws}));
 }
 
+/// exhaustive comparison on grey pixels: decoded level of (c,c,c,a) over background (b,b,b) against
+/// level(composite) — all c, the given alphas and backgrounds; returns (pixels compared, differing, first witnesses)
+fn alpha_grid(alphas: &[u8], bgs: &[u8]) -> (u64, u64, Vec<Value>) {
+    let (mut n, mut bad, mut wit) = (0u64, 0u64, Vec::new());
+    for &b in bgs {
+        let bg = [b, b, b, 255];
+        for &a in alphas {
+            let px: Vec<[u8; 4]> = (0..6).flat_map(|_| (0..=255u8).map(move |c| [c, c, c, a])).collect();
+            let case = Case { w: 256, h: 6, px, bg: Some(bg), crop: None, tag: "alpha-grid".into() };
+            let Ok(bytes) = draw(&mut SixelImageHandler::new(Some(RGBA::new(b, b, b, 255))), &case.image()) else { bad += 1; continue };
+            let Ok(d) = decode(&bytes) else { bad += 1; continue };
+            for c in 0..256usize {
+                let want = composite([c as u8, c as u8, c as u8, a], Some(bg)).map(level);
+                let got = d.pix.get(c).copied().flatten().unwrap_or([255; 3]);
+                n += 1;
+                if want != got {
+                    bad += 1;
+                    if wit.len() < 8 {
+                        wit.push(json!({"c": c, "alpha": a, "bg": b, "want": want, "got": got}));
+                    }
+                }
+            }
+        }
+    }
+    (n, bad, wit)
+}
+
 fn main() {
+    if std::env::var("C12_PROBE").is_ok() {
+        let all: Vec<u8> = (0..=255).collect();
+        let (n, bad, wit) = alpha_grid(&all[..255], &all);
+        println!("compared {n} differing {bad}\n{}", serde_json::to_string_pretty(&wit).unwrap());
+        return;
+    }
     let cfg = Cfg::from_env();
     let corners = corner_cases();
     if std::env::var("C12_LOUD").is_err() { verif_harness::silence_panics(); }
